@@ -6057,7 +6057,14 @@ impl WalStorePort for FilesystemWalStore {
     }
 
     fn read_snapshot(&self) -> Result<WalStoreSnapshot, WalStoreError> {
-        let (frames, commits, _) = read_filesystem_segments(&self.root)?;
+        let (frames, commits, torn_tail) = read_filesystem_segments(&self.root)?;
+        if torn_tail {
+            // An incomplete final disk record is an uncommitted tail that the decoded
+            // frames cannot show. Refuse the snapshot until ordinary writable WAL
+            // recovery has truncated it; appending after the torn bytes would make
+            // the whole segment unreadable.
+            return Err(WalStoreError::SegmentHasUncommittedTail(self.segment_id));
+        }
         Ok(WalStoreSnapshot { frames, commits })
     }
 
